@@ -327,7 +327,48 @@ def rule_params_forwarded_(ctx: Ctx, rep: Report) -> None:
     rule_params_forwarded(ctx, rep, "C14.params_forwarded", ('btclib.descriptors.descriptors', 'btclib.descriptors.key_expression', 'btclib.wallet', 'btclib.core_import'), 100)
 
 
+def rule_text_reads_back(ctx: Ctx, rep: Report) -> None:
+    """C14.text_reads_back: a descriptor's text includes its miniscript leaves, and
+    what `_sugared_text` writes for them reads back only with the prefix it is
+    handed (C15.sugar_prefix, reported here for the descriptor's write/parse
+    round trip)."""
+    from rules import C15
+    tmp = Report("C15", rep.tier)
+    tmp.quiet = True
+    C15.rule_sugar_prefix(ctx, tmp)
+    for o in tmp.obs:
+        rep.ob("C14.text_reads_back", o.instance, o.held, o.site, o.detail)
+    rep.floor("C14.text_reads_back", 2)
+
+
+def rule_wildcard_kind(ctx: Ctx, rep: Report) -> None:
+    """C14.wildcard_kind: `KeyExpression.wildcard` is not a flag: it is the offset
+    of the wildcard step, 0 for `/*` and 0x80000000 for `/*h`, and the step a
+    fixed-index descriptor carries is wildcard + index. Where at_index replaces
+    the wildcard by a step, the step is computed from both -- from the index
+    alone, `.../0/*h` at 5 becomes `.../0/5`, a descriptor of another key that
+    parses, derives, and recognises none of the original's scripts."""
+    rule = "C14.wildcard_kind"
+    fi = ctx.func("btclib.descriptors.descriptors.at_index")
+    idx = fi.params()[1]
+    n = 0
+    for c in ast.walk(fi.node):
+        if isinstance(c, ast.Call) and call_name(c) == "replace" and any(k.arg == "wildcard" for k in c.keywords):
+            dp = [k.value for k in c.keywords if k.arg == "der_path"]
+            if not dp:
+                continue
+            n += 1
+            new = [e for e in (dp[0].elts if isinstance(dp[0], (ast.Tuple, ast.List)) else [dp[0]]) if not isinstance(e, ast.Starred)]
+            names = {x.id for e in new for x in ast.walk(e) if isinstance(x, ast.Name)}
+            attrs = {x.attr for e in new for x in ast.walk(e) if isinstance(x, ast.Attribute)}
+            ok = idx in names and "wildcard" in attrs
+            rep.ob(rule, "at_index:step", ok, f"{fi.module.relpath}:{c.lineno}", f"the step is `{', '.join(str(norm(e)) for e in new)}`" + ("" if ok else ": it does not carry the wildcard's offset, so a hardened wildcard becomes a plain step"))
+    rep.floor(rule, 1)
+
+
 RULES = [
+    ("C14.text_reads_back", rule_text_reads_back),
+    ("C14.wildcard_kind", rule_wildcard_kind),
     ("C14.params_forwarded", rule_params_forwarded_),
     ("C14.own_fields", rule_own_fields),
     ("C14.checksum_gate", rule_checksum_gate),
